@@ -575,6 +575,18 @@ pub fn alphabet(rich: bool) -> Vec<TxSpec> {
             }
         }
     }
+    // RefLog::Only probes (also in the plain alphabet): the ref itself must not change, the expectation is still checked against the
+    // current value - which may live in packed-refs only
+    for packed in 0..3u8 {
+        for e in [
+            EditSpec { name: T, chg: Chg::Update { new: Val::Id(0), expected: Exp::MustExist }, deref: false, log_only: true },
+            EditSpec { name: T, chg: Chg::Delete { expected: Exp::MustExist }, deref: false, log_only: true },
+            EditSpec { name: A, chg: Chg::Update { new: Val::Id(1), expected: Exp::MustExistAndMatch(Val::Id(0)) }, deref: false, log_only: true },
+            EditSpec { name: HEAD, chg: Chg::Delete { expected: Exp::MustExistAndMatch(Val::Id(0)) }, deref: true, log_only: true },
+        ] {
+            out.push(TxSpec { edits: vec![e], packed });
+        }
+    }
     if rich {
         for packed in 0..3u8 {
             for e in &singles {
@@ -589,6 +601,8 @@ pub fn alphabet(rich: bool) -> Vec<TxSpec> {
             }
         }
     }
+    let mut seen = std::collections::HashSet::new();
+    out.retain(|t| seen.insert(t.clone()));
     out
 }
 
